@@ -140,11 +140,12 @@ def rep1(x):
 
 
 def kinds_ok(x, rep):
-    """projective representations must match the build's coordinate system (what the library itself produces)"""
+    """Both projective systems are admissible inputs in every non-affine build: the coordinate-specific public
+    routines (ep2_dbl_jacob, ep_add_projc, ...) produce either tag, and the pairings normalise by the tag of the
+    point. An affine-only build (EP_ADD = BASIC) has no projective code, so everything is sent affine there."""
     b = x.base
-    want = {b.BASIC: "basic", b.PROJC: "projc", b.JACOB: "jacob"}[b.EP_ADD]
-    if rep["kind"] != "basic" and rep["kind"] != want:
-        return dict(rep, kind=want)
+    if b.EP_ADD == b.BASIC and rep["kind"] != "basic":
+        return dict(rep, kind="basic", z=1 if isinstance(rep["z"], int) else [1] + [0] * (len(rep["z"]) - 1))
     return rep
 
 
